@@ -46,8 +46,12 @@ CFG = {
         "Swat4.C04.heartbeat_accepted_iff",
         "Swat4.C04.heartbeat_accepted_if",
         "Swat4.C04.heartbeat_accepted_only_if",
-        "Swat4.C04.accepts_def",
         "Swat4.C04.heartbeat_without_localport_dropped",
+    ],
+    # proved in the Lean files (and built with the module) but NOT audited as property theorems: each is a read-back of a
+    # definition, glue between two names, true by type, or a restatement of an audited theorem
+    "supporting": [
+        {"name": "Swat4.C04.accepts_def", "why": "`Iff.rfl`: the definition of `Rep.Accepts` spelled out for the reader; the content is heartbeat_accepted_iff"},
     ],
     "shards": (4, 16),
     "nontrivial": _c04_nontrivial,
